@@ -452,6 +452,50 @@ func TestBoundaries(t *testing.T) {
 	vp.CheckCase(t, "c06.addr", Case{}, checkWithFlips)
 }
 
+// splicePatterns are the well-known byte patterns spliced with the listed
+// bases (in 16-byte form).
+var splicePatterns = []string{"::ffff:0:0", "::ffff:255.255.255.255", "ffff:ffff:ffff:ffff:ffff:ffff:ffff:ffff", "::", "0:0:0:0:ffff:ffff::", "64:ff9b:1:ffff:ffff:ffff:ffff:ffff", "::1", "1111:1111:1111:1111:1111:1111:1111:1111"}
+
+// TestSpliceSweep: every two-segment splice a[:i]+b[i:] and every
+// three-segment splice a[:i]+b[i:j]+a[j:] of the 16-byte forms of two listed
+// bases / well-known patterns.  A membership test that looks at the right
+// bytes of the wrong network, or at too few bytes, misclassifies some of them.
+func TestSpliceSweep(t *testing.T) {
+	var pool [][16]byte
+	for _, n := range allNets() {
+		pool = append(pool, n.Addr().As16())
+	}
+	for _, x := range splicePatterns {
+		pool = append(pool, netip.MustParseAddr(x).As16())
+	}
+	var evals, inside int64
+	for _, a := range pool {
+		for _, b := range pool {
+			if a == b {
+				continue
+			}
+			for i := 0; i <= 16; i++ {
+				for j := i; j <= 16; j++ {
+					out := a
+					copy(out[i:j], b[i:j])
+					evals++
+					in, err := checkAddr(netip.AddrFrom16(out))
+					if err != nil {
+						vp.Fail(t, "c06.addr", Case{Addr: netip.AddrFrom16(out)}, err)
+						return
+					}
+					if in {
+						inside++
+					}
+				}
+			}
+		}
+	}
+	vp.EvalN("c06.splicesweep", evals)
+	vp.ClassN("splicesweep:addresses", evals)
+	vp.ClassN("splicesweep:inside-a-listed-network", inside)
+}
+
 // TestByteSweep: for every documented network and every byte position, all
 // 256 values of that byte with the other bytes taken from the network base
 // (thorough: additionally all 65536 values of every pair of adjacent bytes).
